@@ -27,7 +27,7 @@ const mod = "example.com/c08-mod"
 
 type ffi struct {
 	id, path, name, use string // use: expression of type uint64 using the package
-	pkgName        string
+	pkgName             string
 }
 
 var ffis = []ffi{
@@ -383,7 +383,11 @@ func main() {
 			genImportsCfg(root, c)
 		}
 	}
-	if out, err := func() ([]byte, error) { c := exec.Command("go", "build", "./..."); c.Dir = root; return c.CombinedOutput() }(); err != nil {
+	if out, err := func() ([]byte, error) {
+		c := exec.Command("go", "build", "./...")
+		c.Dir = root
+		return c.CombinedOutput()
+	}(); err != nil {
 		fmt.Fprintln(os.Stderr, "harness error: generated module does not compile:", firstLines(string(out), 15))
 		os.Exit(3)
 	}
@@ -457,7 +461,7 @@ func main() {
 	}
 	os.Exit(acc.Done(ev.Finish{
 		Prop: "C08", Tier: *tier, Level: "exploration", Start: start,
-		Rule: "generated module (local stub modules through replace directives give arbitrary import paths offline): (a) every client with one route and every pair of routes to the FFI packages {machine/disk, primitive/disk, machine/async_disk, primitive/async_disk, gokv/grove_ffi (stub built on disk)} x {direct, one helper package, two helper packages}, plus no FFI; (b) every library path of <=2 (thorough <=3) components over {a, a-b, a.b, a_b, trusted_x, x-y.z} imported alone, together with a second path from another file in both orders, twice from two files (adjacent, and with another import in between), next to a builtin import, and 36 client package paths over the same alphabet; translated by the real goose binary; reference: FFI = the set of FFIs reachable without passing through an FFI (one -> its prelude, none -> Section header + End footer, two -> refused, no file), one sorted de-duplicated Require per non-builtin import with '/'->'.', '.' and '-'->'_', trusted_* through the trusted namespace, output path derived the same way",
+		Rule:        "generated module (local stub modules through replace directives give arbitrary import paths offline): (a) every client with one route and every pair of routes to the FFI packages {machine/disk, primitive/disk, machine/async_disk, primitive/async_disk, gokv/grove_ffi (stub built on disk)} x {direct, one helper package, two helper packages}, plus no FFI; (b) every library path of <=2 (thorough <=3) components over {a, a-b, a.b, a_b, trusted_x, x-y.z} imported alone, together with a second path from another file in both orders, twice from two files (adjacent, and with another import in between), next to a builtin import, and 36 client package paths over the same alphabet; translated by the real goose binary; reference: FFI = the set of FFIs reachable without passing through an FFI (one -> its prelude, none -> Section header + End footer, two -> refused, no file), one sorted de-duplicated Require per non-builtin import with '/'->'.', '.' and '-'->'_', trusted_* through the trusted namespace, output path derived the same way",
 		Assumptions: []string{"refusal of a two-FFI package is judged only as 'no file and non-zero exit' (the form of the refusal belongs to C07)"},
 		Extra:       map[string]any{"distinct_nontrivial": len(acc.Sets["nontrivial"])},
 	}))
